@@ -11,7 +11,7 @@ RULE = ("real-time sessions over loopback for (local hold, remote hold) pairs fr
         "hold/3; hold 0: established, no periodic KEEPALIVE, no expiry) and against the connection model's negotiated value. "
         "distinct = distinct (pair, traffic pattern).")
 ASSUMPTIONS = ["wall-clock tolerance 350 ms for scheduling noise", "hold 0: 'never expires' observed over a 4 s window in the quick tier"]
-COQ_FILES = ["Model/Conn.v", "Model/Timed.v", "Proofs/ConnProofs.v", "Proofs/TimedProofs.v", "Props/C06.v"]
+COQ_FILES = ["Model/Conn.v", "Model/Timed.v", "Model/TimedW.v", "Proofs/ConnProofs.v", "Proofs/TimedProofs.v", "Proofs/TimedWProofs.v", "Props/C06.v"]
 TOL = 350
 
 
@@ -131,9 +131,14 @@ def timer_convs(rng, tier):
     for (L, R) in pairs:
         for direction in ("in", "out"):
             for traffic, mode in (([], ""), ([ka], ""), ([ka, upd, ka, upd, upd], ""), ([ka, ka, ka], ""),
-                                  ([ka, upd, upd, upd], "nilhandler"), ([ka, upd], "estwrites")):
+                                  ([ka, upd, upd, upd], "nilhandler"), ([ka, upd], "estwrites"), ([ka], "estwrites1"),
+                                  ([ka, upd, ka], "estwrites5")):
+                nw = {"estwrites": 2, "estwrites1": 1, "estwrites5": 5}.get(mode, 0)
                 c = S.Conv(sid, direction=direction, hold=L, tag="timerops.%d.%d.%d%s.%s" % (L, R, len(traffic), mode, direction),
-                           est_writes=([b"\x00\x00\x00\x00", b"\x00\x00\x00\x00"] if mode == "estwrites" else ()))
+                           est_writes=[b"\x00\x00\x00\x00"] * nw)
+                # model with the keep-alive manager (TimedW.v, op 62): every UPDATE written while Established is followed by
+                # one re-arm of the keep-alive timer with a third of the hold time, none when the hold time is 0
+                c.model_op = 62
                 if mode == "nilhandler":
                     c.nil_handler = True
                     c.scenario_extra = {"nil_handler": True}
@@ -224,7 +229,7 @@ def timer_judge(c, e, o, r):
 
 def sys_part(tier, rng, rep, replay):
     tcs = timer_convs(rng, tier)
-    covt = sysrun.run_convs(PID, tcs, rep, keys=("hold_arms", "ka_arms_pre", "cbs"), extra_check=timer_judge, par=32)
+    covt = sysrun.run_convs(PID, tcs, rep, keys=("hold_arms", "ka_arms_pre", "ka_arms", "cbs"), extra_check=timer_judge, par=32)
     per = [HoldPerSession(700 + k, d, L, rh) for k, (d, L, rh) in enumerate(
         (("out", 9, (3, 9, 30)), ("out", 90, (0, 30, 90)), ("out", 30, (90, 3, 0, 30)), ("in", 9, (3, 9)), ("out", 0, (90, 0))))]
     covp = sysrun.run_convs(PID, per, rep, extra_check=lambda c, e, o, r: c.check(r), par=8)
